@@ -261,11 +261,16 @@ def capacity_pred(repo, res, canon, q):
             if e.kind == 'stmt' and isinstance(e.node, ast.Return) and e.node.value is not None:
                 v = e.node.value
                 n += 1
+                neg = False
+                while isinstance(v, ast.UnaryOp) and isinstance(v.op, ast.Not):
+                    v, neg = v.operand, not neg
                 if not (isinstance(v, ast.Compare) and len(v.ops) == 1):
-                    ok, why = False, 'returns %s' % short(ast.unparse(v))
+                    ok, why = False, 'returns %s' % short(ast.unparse(e.node.value))
                     continue
                 d = affine(canon, v.left, fr, env) - affine(canon, v.comparators[0], fr, env)
                 op = type(v.ops[0])
+                if neg:       # not (a < b)  is  a >= b
+                    op = {ast.Lt: ast.GtE, ast.LtE: ast.Gt, ast.Gt: ast.LtE, ast.GtE: ast.Lt}.get(op, op)
                 if op in (ast.LtE, ast.Lt):
                     d = d.scale(-1)
                 elif op not in (ast.GtE, ast.Gt):
